@@ -43,6 +43,9 @@ func H_C19_route(tbl, router int) {
 		for k := range o1.params {
 			o1.params[k] = "\xffscribbled"
 		}
+		if o1.params != nil {
+			o1.params["\xffleft-behind"] = "x" // a filter may publish something to later filters this way
+		}
 	} else {
 		verifCover("not-invoked")
 		verifObserveInt("status", o1.status)
@@ -54,6 +57,8 @@ func H_C19_route(tbl, router int) {
 		for _, v := range o2.params {
 			verifAssert(v != "\xffscribbled", "C19: path parameters of one request are visible to another")
 		}
+		_, left := o2.params["\xffleft-behind"]
+		verifAssert(!left, "C19: path parameters of one request are visible to another")
 	}
 	EnableTracing(true)
 	o3 := h.run(c, q)
